@@ -52,6 +52,10 @@ static int tcp_mode;
  * forced to EINPROGRESS first */
 static int conn_mode, forced_inprog, in_connect_call, conn_res, g_ls = -1;
 static uv_connect_t creq;
+/* uv_write2: one handle to send (a bound uv_tcp_t); descriptors the peer received per request */
+static int ipc_mode, sendh_open, sendh_closing, cur_send_id = -1;
+static uv_tcp_t sendh;
+static int peer_fds[4096];
 static char sock_path[108];
 static FILE* clog; static char* clog_buf; static size_t clog_len;
 static uv_loop_t loop;
@@ -83,7 +87,17 @@ static void drain_peer(void) {
   }
   if (g_peer < 0) return;
   for (;;) {
-    ssize_t r = read(g_peer, buf, sizeof buf);
+    struct msghdr m; struct iovec v; char ctl[CMSG_SPACE(16 * sizeof(int))]; struct cmsghdr* c; ssize_t r;
+    memset(&m, 0, sizeof m); v.iov_base = buf; v.iov_len = sizeof buf;
+    m.msg_iov = &v; m.msg_iovlen = 1; m.msg_control = ctl; m.msg_controllen = sizeof ctl;
+    r = recvmsg(g_peer, &m, 0);
+    if (r >= 0)
+      for (c = CMSG_FIRSTHDR(&m); c != NULL; c = CMSG_NXTHDR(&m, c))
+        if (c->cmsg_level == SOL_SOCKET && c->cmsg_type == SCM_RIGHTS) {
+          int n = (int) ((c->cmsg_len - CMSG_LEN(0)) / sizeof(int)), j; int* fdp = (int*) CMSG_DATA(c);
+          for (j = 0; j < n; j++) close(fdp[j]);
+          if (cur_send_id >= 0 && cur_send_id < 4096) peer_fds[cur_send_id] += n;
+        }
     if (r > 0) {
       if ((size_t) r > expect_len || memcmp(buf, expect_buf, r) != 0) peer_ok = 0;
       if ((size_t) r <= expect_len) { memmove(expect_buf, expect_buf + r, expect_len - r); expect_len -= r; }
@@ -105,16 +119,21 @@ static void expect_add(const unsigned char* p, size_t n) {
 static int locate(const char* p, size_t* off) {
   int i;
   for (i = nreq - 1; i >= 0; i--)
-    if (reqs[i] && p >= reqs[i]->payload && p < reqs[i]->payload + reqs[i]->total) {
+    if (reqs[i] && p >= reqs[i]->payload && p <= reqs[i]->payload + reqs[i]->total) {
       *off = p - reqs[i]->payload; return i;
     }
   return -1;
 }
 
-static ssize_t scripted_writev(const struct iovec* iov, int iovcnt) {
+static ssize_t scripted_writev(const struct iovec* iov, int iovcnt, void* control, size_t controllen) {
   size_t offered = 0; int i; ssize_t r; int e;
   const char* tok = script_pos < nscript ? script[script_pos++] : "p";
+  int has_fd = control != NULL && controllen >= CMSG_LEN(sizeof(int)), fd_id = -1;
   for (i = 0; i < iovcnt; i++) offered += iov[i].iov_len;
+  if (has_fd && iovcnt > 0) { size_t o2; fd_id = locate(iov[0].iov_base, &o2); }
+  /* a stream socket never answers 0 to a non-empty sendmsg; with a descriptor attached that answer
+   * would mean "accepted, descriptor gone": script it as EAGAIN instead */
+  if (has_fd && offered > 0 && tok[0] == 'n' && strtoull(tok + 1, NULL, 10) == 0) tok = "e11";
   if (iovcnt > 1024) {               /* what the kernel says to more than IOV_MAX entries */
     fprintf(olog, "e%d ", EINVAL);
     if (!g_quiet) printf("!iov%d ", iovcnt);
@@ -124,6 +143,7 @@ static ssize_t scripted_writev(const struct iovec* iov, int iovcnt) {
   if (tok[0] == 'e') {
     e = atoi(tok + 1);
     fprintf(olog, "e%d ", e);
+    if (has_fd && e != EINTR && !g_quiet) printf("g%d ", fd_id);
     errno = e;
     return -1;
   }
@@ -138,11 +158,22 @@ static ssize_t scripted_writev(const struct iovec* iov, int iovcnt) {
       cp[cnt].iov_base = iov[i].iov_base; cp[cnt].iov_len = (tok[0] == 'n') ? l : iov[i].iov_len; cnt++;
       left -= l;
     }
-    if (cnt == 0) r = 0;                       /* a zero-byte write: nothing to do for the kernel */
+    if (has_fd) {                              /* keep the control message on the real call */
+      struct msghdr m; memset(&m, 0, sizeof m);
+      m.msg_iov = cp; m.msg_iovlen = cnt; m.msg_control = control; m.msg_controllen = controllen;
+      r = __real_sendmsg(g_fd, &m, 0);
+    }
+    else if (cnt == 0) r = 0;                  /* a zero-byte write: nothing to do for the kernel */
     else r = __real_writev(g_fd, cp, cnt);
     e = errno;
-    if (r < 0) { fprintf(olog, "e%d ", e); free(cp); errno = e; return -1; }
+    if (r < 0) {
+      fprintf(olog, "e%d ", e);
+      if (has_fd && e != EINTR && !g_quiet) printf("g%d ", fd_id);
+      free(cp); errno = e; return -1;
+    }
     fprintf(olog, "n%zd ", r);
+    if (has_fd && !g_quiet) printf("f%d ", fd_id);
+    cur_send_id = has_fd ? fd_id : -1;
     /* chunks: map what was accepted back to (request, offset) */
     {
       size_t acc = r; int cur = -2; size_t cur_off = 0, cur_len = 0;
@@ -171,15 +202,15 @@ ssize_t __wrap_write(int fd, const void* buf, size_t n) {
   struct iovec v;
   if (!g_active || fd != g_fd) return __real_write(fd, buf, n);
   v.iov_base = (void*) buf; v.iov_len = n;
-  return scripted_writev(&v, 1);
+  return scripted_writev(&v, 1, NULL, 0);
 }
 ssize_t __wrap_writev(int fd, const struct iovec* iov, int cnt) {
   if (!g_active || fd != g_fd) return __real_writev(fd, iov, cnt);
-  return scripted_writev(iov, cnt);
+  return scripted_writev(iov, cnt, NULL, 0);
 }
 ssize_t __wrap_sendmsg(int fd, const struct msghdr* m, int flags) {
   if (!g_active || fd != g_fd) return __real_sendmsg(fd, m, flags);
-  return scripted_writev(m->msg_iov, (int) m->msg_iovlen);
+  return scripted_writev(m->msg_iov, (int) m->msg_iovlen, m->msg_control, m->msg_controllen);
 }
 int __wrap_shutdown(int fd, int how) {
   int r, e;
@@ -279,6 +310,16 @@ static void do_ops(char* ops, int in_cb) {
       printf("r%d:%d ", w->id, r);
       free(bufs);
       break;
+    case 'V':
+      w = make_req(tok + 1, &bufs, &nb);
+      printf("w%d,%zu m%d ", w->id, w->total, w->id);
+      r = uv_write2(&w->req, &h.stream, bufs, nb, (uv_stream_t*) &sendh, write_cb);
+      printf("r%d:%d ", w->id, r);
+      free(bufs);
+      break;
+    case 'X':
+      if (sendh_open && !sendh_closing) { sendh_closing = 1; uv_close((uv_handle_t*) &sendh, NULL); }
+      break;
     case 'T':
       w = make_req(tok + 1, &bufs, &nb);
       printf("t%d,%zu ", w->id, w->total);
@@ -334,7 +375,8 @@ static void run_case(char* line) {
   while (nsec < 5 && (p = strchr(p, ';')) != NULL) { *p++ = 0; sec[nsec++] = p; }
   if (nsec < 4) { printf("badcase\n"); return; }
   { char cm[32] = "-";
-    sscanf(sec[0], "%d %d %31s", &blk, &shutans_script, cm);
+    ipc_mode = 0;
+    sscanf(sec[0], "%d %d %31s %d", &blk, &shutans_script, cm, &ipc_mode);
     conn_mode = cm[0] == '-' ? 0 : cm[0];
     forced_inprog = conn_mode ? atoi(cm + 1) : 0; }
   if (shutans_script < 0) shutans_script = -shutans_script;
@@ -368,7 +410,7 @@ static void run_case(char* line) {
     g_fd = fds[0]; g_peer = fds[1];
     fcntl(g_peer, F_SETFL, fcntl(g_peer, F_GETFL) | O_NONBLOCK);
     if (tcp_mode) { uv_tcp_init(&loop, &h.tcp); uv_tcp_open(&h.tcp, g_fd); }
-    else { uv_pipe_init(&loop, &h.pipe, 0); uv_pipe_open(&h.pipe, g_fd); }
+    else { uv_pipe_init(&loop, &h.pipe, ipc_mode); uv_pipe_open(&h.pipe, g_fd); }
     g_active = 1;
   } else if (conn_mode == 't' || conn_mode == 'T') {
     struct sockaddr_in a; socklen_t al = sizeof a; int r;
@@ -400,16 +442,24 @@ static void run_case(char* line) {
     poll(&pf, 1, 5000);
   }
   if (blk) h.handle.flags |= UV_HANDLE_BLOCKING_WRITES;
+  sendh_open = sendh_closing = 0; cur_send_id = -1; memset(peer_fds, 0, sizeof peer_fds);
+  {                                        /* the handle uv_write2 sends: a bound TCP handle */
+    struct sockaddr_in a; memset(&a, 0, sizeof a); a.sin_family = AF_INET; a.sin_addr.s_addr = htonl(INADDR_LOOPBACK);
+    uv_tcp_init(&loop, &sendh);
+    if (uv_tcp_bind(&sendh, (struct sockaddr*) &a, 0) == 0) sendh_open = 1;
+  }
 
   do_ops(sec[1], 0);
 
   drain_peer();
   printf("e%llu,%d,%d", peer_bytes, peer_eof, peer_ok);
+  for (i = 0; i < nreq && i < 4096; i++) if (peer_fds[i] > 0) printf(" p%d:%d", i, peer_fds[i]);
 
   /* tear down quietly */
   g_quiet = 1; g_active = 0;
   if (!g_closing) { g_closing = 1; uv_close(&h.handle, close_cb); }
   uv_close((uv_handle_t*) &keepalive, NULL);
+  if (!sendh_closing) { sendh_closing = 1; uv_close((uv_handle_t*) &sendh, NULL); }
   for (i = 0; i < 50 && uv_run(&loop, UV_RUN_NOWAIT); i++) ;
   uv_loop_close(&loop);
   if (g_peer >= 0) close(g_peer);
